@@ -26,8 +26,8 @@ theorem isoOfDay_dayNumber (iso : IsoDate) (hr : InRange iso) :
   have hi := C01_inverse iso.year iso.month iso.day hv hw hd
   rw [C01_toDays _ _ _ hw hv.1 hv.2.1] at hi
   unfold isoOfDay
-  have c : -MAX_EPOCH_DAYS ≤ dayNumber iso.year iso.month iso.day ∧
-      dayNumber iso.year iso.month iso.day ≤ MAX_EPOCH_DAYS := by unfold MAX_EPOCH_DAYS; omega
+  have c : -(MAX_EPOCH_DAYS + 400) ≤ dayNumber iso.year iso.month iso.day ∧
+      dayNumber iso.year iso.month iso.day ≤ MAX_EPOCH_DAYS + 400 := by unfold MAX_EPOCH_DAYS; omega
   rw [if_pos c]
   simp only [hi]
 
